@@ -10,6 +10,11 @@ Proof. intro t. pose proof (Rle_0_sqr t) as H. unfold Rsqr in H. exact H. Qed.
 Lemma sq_abs : forall t, Rabs t * Rabs t = t * t.
 Proof. intro t. rewrite <- Rabs_mult. apply Rabs_right. apply Rle_ge. apply sq_nonneg. Qed.
 
+(* used by Bridge/IdealBridge.v: an indicator is determined by the two sides of its comparison *)
+Lemma ind_ext : forall a b a' b', a = a' -> b = b' ->
+  (if Rlt_dec a b then 1 else 0) = (if Rlt_dec a' b' then 1 else 0).
+Proof. intros a b a' b' Ha Hb. subst. reflexivity. Qed.
+
 (* ---------------------------------------------------------------------------------------------- *)
 (* A. which statement decides the value *)
 
